@@ -4,9 +4,11 @@
 package ir
 
 import (
+	"fmt"
 	"go/constant"
 	"go/token"
 	"go/types"
+	"hash/fnv"
 
 	"golang.org/x/tools/go/ssa"
 )
@@ -358,7 +360,18 @@ func threadedSucc(b, from *ssa.BasicBlock) int {
 // Reach path-sensitive for flags: `found := false … found = true; break … if found`, also through chains of phis.
 type phiEnv struct {
 	vals map[*ssa.Phi]ssa.Value // *ssa.Const, or any value for which KnownNonNil holds
-	sig  string
+	sig  uint64                 // order-independent hash of vals (sum of entry hashes)
+}
+
+func entryHash(ph *ssa.Phi, v ssa.Value) uint64 {
+	h := fnv.New64a()
+	fmt.Fprintf(h, "%p|", ph)
+	if c, ok := v.(*ssa.Const); ok {
+		h.Write([]byte(c.String()))
+	} else {
+		fmt.Fprintf(h, "%p", v)
+	}
+	return h.Sum64()
 }
 
 func (e phiEnv) with(b, from *ssa.BasicBlock) phiEnv {
@@ -410,18 +423,8 @@ func (e phiEnv) with(b, from *ssa.BasicBlock) phiEnv {
 		}
 	}
 	out := phiEnv{vals: nv}
-	// signature: deterministic rendering
-	type kv struct {
-		k string
-		v string
-	}
-	var parts []string
 	for p, v := range nv {
-		parts = append(parts, p.Parent().Name()+"."+p.Name()+"="+v.String())
-	}
-	sortStrings(parts)
-	for _, s := range parts {
-		out.sig += s + ";"
+		out.sig += entryHash(p, v)
 	}
 	return out
 }
@@ -461,13 +464,8 @@ func (e phiEnv) learn(cond ssa.Value, taken bool) phiEnv {
 	}
 	nv[ph] = ssa.NewConst(constant.MakeBool(taken), types.Typ[types.Bool])
 	out := phiEnv{vals: nv}
-	var parts []string
 	for p, x := range nv {
-		parts = append(parts, p.Parent().Name()+"."+p.Name()+"="+x.String())
-	}
-	sortStrings(parts)
-	for _, s := range parts {
-		out.sig += s + ";"
+		out.sig += entryHash(p, x)
 	}
 	return out
 }
@@ -548,7 +546,7 @@ func Reach(starts []Pt, o Opts) Result {
 	type key struct {
 		b   *ssa.BasicBlock
 		i   int
-		env string
+		env uint64
 	}
 	type item struct {
 		p    Pt
@@ -606,7 +604,16 @@ func Reach(starts []Pt, o Opts) Result {
 			res.Reached[in] = true
 			if ret, isRet := in.(*ssa.Return); isRet {
 				if ph := PhiResult(ret); ph != nil {
-					res.RetEdges[ret] = append(res.RetEdges[ret], it.env.vals[ph])
+					ev := it.env.vals[ph]
+					if ev == nil && p.I == 0 && it.from != nil {
+						// not a tracked constant: the operand itself (e.g. the err variable of the failing phase)
+						for k, pr := range b.Preds {
+							if pr == it.from {
+								ev = ph.Edges[k]
+							}
+						}
+					}
+					res.RetEdges[ret] = append(res.RetEdges[ret], ev)
 				}
 				if r2, ph, neg, ok := retPhi(b); ok && r2 == ret {
 					var cv constant.Value
